@@ -25,13 +25,14 @@
                                          call, exact for "the call keeps the heap a heap":
                                          C08_trigger_exact), in particular every [settled] history
                                          (condition on the history alone): C08_lru_settled_partial.
-   Machine integers: the model computes in Z; C08_int64_range shows that is faithful when
-   2*limit < 2^63; C08_newsize_wraps is the counterexample beyond (a real misbehaviour of the Go
-   code for limit > 2^62, reported). *)
+   Machine integers (after the repair of F12, /repo 3977891): C08_int64_all_limits — the model with
+   64-bit wrap-around size arithmetic equals the Z model for EVERY limit 0 < limit < 2^63 and every
+   size function with values in [0, 2^63); C08_old_newsize_wraps is the defect the repair removed;
+   C08_negative_size_room_wraps is what remains outside (negative sizes). *)
 From Coq Require Import ZArith List Bool.
 Import ListNotations.
 From Mds Require Import Gen.CacheIdx Heapq.HeapqModel Heapq.HeapqSpec Cache.CacheSpec Cache.CacheModel Cache.CacheWitness
-  Cache.CacheLruProofs Cache.CacheTheorems Cache.CacheTheoremsS2.
+  Cache.CacheLruProofs Cache.CacheTheorems Cache.CacheTheoremsS2 Cache.CacheModel64 Cache.CacheInt.
 Local Open Scope Z_scope.
 
 (* For every heap variant, key type with decidable equality, size function >= 0, limit > 0 and
@@ -235,9 +236,69 @@ Proof. vm_compute. reflexivity. Qed.
    callback (Put: Check, Remove, Evict, Store once each, no Access, two onEvict sites, three sizeOf;
    Get: Access only; Has: Check only; Remove: Check + Remove; Clear: Evict; lruStore.Access: one
    heap Remove and one Add, no Peek/Len/Pop; Store: one Add; Remove: one heap Remove + one delete;
-   Evict: one Pop + one delete; Check: one Peek).  Recomputed from cache.go/lru.go on every run:
-   a shortcut, a dropped call or a redirected one makes this false (statement ORDER is not covered;
-   that is tied by the correspondence runs only). *)
+   Evict: one Pop + one delete; Check: one Peek); the ORDER of those statements (Put: Check, store.Remove,
+   callback, size -=, count--, then in the loop Evict, callback, count--, size -=, then Store, size +=,
+   count++; Remove: Check before store.Remove; lruStore.Access: clock++, heap Remove, stamp, Add;
+   Store: clock++ before Add; Remove: heap Remove before delete; Evict: Pop before delete); and the
+   statement skeleton (kind and nesting of every statement) of each of these functions.  Recomputed
+   from cache.go/lru.go on every run: a shortcut, a dropped, added, redirected or moved statement
+   makes this false. *)
 Theorem C08_store_shape : store_shape = true.
 Proof. exact store_shape_ok. Qed.
 Print Assumptions C08_store_shape.
+
+(* Machine integers.  [run_new_w ... wrap] (CacheModel64.v) is the model with every int64 result of the
+   size arithmetic (c.size - sizeOf(x), c.limit - valSize, c.size + valSize) passed through [wrap].
+   With the identity it is the model of CacheModel.v: *)
+Theorem C08_model64_is_model :
+  forall (K V : Type) (keqb : K -> K -> bool) (kzero : K) (vzero : V) (sizeOf : V -> Z) (hv : variant)
+         (c : cache K V) (ops : list (op K V)),
+    run_w K V keqb kzero vzero sizeOf hv (fun z => z) c ops = run K V keqb kzero vzero sizeOf hv c ops.
+Proof. exact model_w_id_is_model. Qed.
+Print Assumptions C08_model64_is_model.
+
+(* ... and with 64-bit two's-complement wrap-around it gives the same run as the Z model — so all the
+   theorems above are theorems about 64-bit arithmetic — for EVERY limit that is a positive int64, every
+   size function with non-negative int64 values (values above the limit are refused before any
+   arithmetic), every heap variant and every history.  Not wrapped (assumptions): count (bounded by
+   the number of entries) and the logical clock (one increment per Put / successful Get). *)
+Theorem C08_int64_all_limits :
+  forall (K V : Type) (keqb : K -> K -> bool),
+    (forall a b, keqb a b = true <-> a = b) ->
+  forall (kzero : K) (vzero : V) (sizeOf : V -> Z),
+    (forall v, 0 <= sizeOf v < 2 ^ 63) ->
+  forall (lim : Z), 0 < lim < 2 ^ 63 ->
+  forall (hv : variant) (ops : list (op K V)),
+    run_new_w K V keqb kzero vzero sizeOf hv wrap64 lim ops = run_new K V keqb kzero vzero sizeOf hv lim ops.
+Proof. exact model64_eq_model. Qed.
+Print Assumptions C08_int64_all_limits.
+
+(* the regression input of F12 (corpus/C08/int64-overflow.in): limit 2^63-1, two values of size 127*2^56 *)
+Example C08_int64_all_limits_ex :
+  let lim := 2 ^ 63 - 1 in
+  let ops := [OPut 0 127; OPut 1 127; OSize; OLen; OPut 2 1; OSize; OLen] in
+  run_new_w Z Z Z.eqb 0 0 (size_mode 1056) pinned wrap64 lim ops
+  = map ok_event [(RBool true, []); (RBool true, [(0, 127)]); (RNum (127 * 2 ^ 56), []); (RNum 1, []);
+                  (RBool true, [(1, 127)]); (RNum (2 ^ 56), []); (RNum 1, [])].
+Proof. vm_compute. reflexivity. Qed.
+
+(* The defect the repair removed (F12): newSize := c.size + valSize; for newSize > c.limit.  With
+   limit = size = valSize = 2^63-1 the int64 sum is -2 and the old test is false (no eviction) although
+   the Z sum exceeds the limit; the repaired test evicts, in Z and in 64 bits alike. *)
+Theorem C08_old_newsize_wraps :
+  let lim := 2 ^ 63 - 1 in
+  wrap64 (lim + lim) = -2 /\ (wrap64 (lim + lim) >? lim) = false /\ (lim + lim >? lim) = true /\
+  put_evict_continue lim lim lim = true /\ put_evict_cmp lim (wrap64 (lim - lim)) = true.
+Proof. exact old_newsize_wraps. Qed.
+Print Assumptions C08_old_newsize_wraps.
+
+(* What remains outside C08_int64_all_limits: negative sizes (outside the property as well).  The
+   repaired test's subtraction can wrap with them: limit = 2^63-1, valSize = -1, empty cache: in Z there
+   is room; in 64 bits c.limit - valSize = -2^63 and the loop runs on the empty store (Evict panics —
+   observed on the real code, notes/C08-audit.md). *)
+Theorem C08_negative_size_room_wraps :
+  let lim := 2 ^ 63 - 1 in
+  put_refuse (-1) lim = false /\ wrap64 (lim - (-1)) = - 2 ^ 63 /\
+  put_evict_continue 0 lim (-1) = false /\ put_evict_cmp 0 (wrap64 (lim - (-1))) = true.
+Proof. exact negative_size_room_wraps. Qed.
+Print Assumptions C08_negative_size_room_wraps.
